@@ -9,6 +9,7 @@ arbitrary RFC 8259 whitespace in every gap).  The index is `JsonIndex::build` as
 import SuccinctlyVerif.Proof.JsonNav
 import SuccinctlyVerif.Proof.JsonNavTree
 import SuccinctlyVerif.Proof.JsonNavDecode
+import SuccinctlyVerif.Proof.JsonNavRange
 namespace SV.Props.C06
 open SV SV.JsonNav SV.JsonText SV.JsonSemi
 
@@ -107,6 +108,38 @@ example :
       (.cons [] k [] [] (.arr0 []) [] (.cons [] kb [] [] one [] (.cons [] k [] [] (.lit .null) [] .nil))), []⟩
     findCursor (build true false d.text) 0 [0x61#8] = some 15 ∧
     (objectFields (build true false d.text) 0).length = 4 := by
+  decide +kernel
+
+/-! ### raw byte ranges -/
+
+/-- `text_range` (hence `raw_bytes`) of a node is exactly its source token — string with both
+quotes, number literal, `true`/`false`/`null` — or, for a container, the span from its open bracket to
+its own close bracket, proved:
+* for every value or object key `v` *located* in an index (`LocT`: the token segment `v.toks` sits at
+  BP offset `b` and text offset `a`, with the nodes before it equal to the opens before it), followed
+  by text that does not continue a number and either non-empty or reaching the end of the document —
+  which is the situation of every cursor visited by the walk of `navigate_eq` (shown inside its
+  proof by `val_nav` / `field_step`, each recursive call being made on a located segment);
+* for the root of every document.
+MISSING (hence `_partial`): the statement packaged over "every node of every document", i.e. a
+walker returning the range of each visited cursor together with the tree of expected spans; the
+locatedness of the visited cursors is established in the proof of `navigate_eq` but not exported
+as a theorem. -/
+theorem raw_range_eq_partial (hasAvx2 : Bool) (d : Doc) :
+    textRange (build hasAvx2 false d.text) 0 =
+      some ((toksBytes (wsToks d.ws0)).length,
+        (toksBytes (wsToks d.ws0)).length + (toksBytes d.value.toks).length) ∧
+    (∀ (T : List (BitVec 8)) (IB BP : List Bool) (v : JVal) (follow : List Tok) (b a : Nat),
+      LocT T IB BP (v.toks ++ follow) b a → JsonSimple.SafeNext follow → Anch T (v.toks ++ follow) follow a →
+      textRange (mkIndex T IB BP) b = some (a, a + (toksBytes v.toks).length)) :=
+  ⟨textRange_root hasAvx2 d, fun _ _ _ v follow _ _ h hs ha => textRange_at v follow h hs ha⟩
+
+/-- Non-vacuity: ` [1, {"k":"]"}] ` — the root range is bytes 1..15 (whitespace excluded; the `]`
+inside the string does not end the array). -/
+example :
+    let d : Doc := ⟨[.sp], .arr [] (.num ⟨false, .nonzero 0 [], none, none⟩) []
+      (.cons [.sp] (.obj [] [.plain ⟨0x6B#8, by decide⟩] [] [] (.str [.plain ⟨0x5D#8, by decide⟩]) [] .nil) [] .nil), [.sp]⟩
+    d.text.length = 16 ∧ textRange (build true false d.text) 0 = some (1, 15) := by
   decide +kernel
 
 end SV.Props.C06
